@@ -35,6 +35,7 @@ import (
 )
 
 func c20Driver(d *fw.D) {
+	c20NearFloor(d)
 	t0 := time.Now()
 	c20DriverCLI(d)
 	d.Max("info_cli_phase_ms", time.Since(t0).Milliseconds()) // informational only
@@ -360,18 +361,86 @@ type c20StraceCase struct {
 
 var c20StraceLayouts = []int{0, 2, 3, 5}
 
+// c20StraceNear are the near layouts of the traced worker (its last cases).
+var c20StraceNear = []int{c20NearLayoutBase + 1, c20NearLayoutBase + 2, c20NearLayoutBase}
+
 func c20StraceCases(tier string) int {
 	if tier == "thorough" {
-		return 4
+		return 4 + 3
 	}
-	return 2
+	return 2 + 1
+}
+
+// c20StraceLayout is the layout of case idx of the traced worker.
+func c20StraceLayout(tier string, idx int) int {
+	n := 2
+	if tier == "thorough" {
+		n = 4
+	}
+	if idx >= n {
+		return c20StraceNear[(idx-n)%len(c20StraceNear)]
+	}
+	return c20StraceLayouts[idx%len(c20StraceLayouts)]
+}
+
+// c20StraceUnquote undoes strace's C-style quoting of a path (non-ASCII bytes
+// are printed as octal escapes).
+func c20StraceUnquote(s string) string {
+	if !strings.Contains(s, `\`) {
+		return s
+	}
+	var b []byte
+	for i := 0; i < len(s); i++ {
+		c := s[i]
+		if c != '\\' || i+1 == len(s) {
+			b = append(b, c)
+			continue
+		}
+		i++
+		switch e := s[i]; {
+		case e >= '0' && e <= '7':
+			v := 0
+			n := 0
+			for n < 3 && i < len(s) && s[i] >= '0' && s[i] <= '7' {
+				v = v*8 + int(s[i]-'0')
+				i++
+				n++
+			}
+			i--
+			b = append(b, byte(v))
+		case e == 'x' && i+2 < len(s):
+			v, err := strconv.ParseUint(s[i+1:i+3], 16, 8)
+			if err != nil {
+				b = append(b, '\\', e)
+				continue
+			}
+			b = append(b, byte(v))
+			i += 2
+		case e == 'n':
+			b = append(b, '\n')
+		case e == 't':
+			b = append(b, '\t')
+		case e == 'r':
+			b = append(b, '\r')
+		case e == 'v':
+			b = append(b, '\v')
+		case e == 'f':
+			b = append(b, '\f')
+		default: // \\ and \"
+			b = append(b, e)
+		}
+	}
+	return string(b)
 }
 
 // c20StraceRun is the worker side: it is what Run does when C20_STRACE_SIDE is set.
 func c20StraceRun(w *fw.W, idx int, side string) {
 	tp := c20TierOf(w.Tier)
-	layoutIdx := c20StraceLayouts[idx%len(c20StraceLayouts)]
+	layoutIdx := c20StraceLayout(w.Tier, idx)
 	sb, done, err := c20Open(w.RNG(layoutIdx, "layout"), w.RNG(layoutIdx, "locs"), layoutIdx, tp)
+	if err == errC20NearNotApplicable {
+		return
+	}
 	if err != nil {
 		w.Inconclusive("sandbox setup failed: " + err.Error())
 		return
@@ -380,7 +449,11 @@ func c20StraceRun(w *fw.W, idx int, side string) {
 	l := sb.l
 	cs := c20StraceCase{Base: l.Tree.BasePath, LayoutIdx: layoutIdx}
 	seq := 0
-	for i := 0; i < len(sb.locs); i += tp.chunks {
+	stride := tp.chunks
+	if l.Near {
+		stride = tp.nearChunks
+	}
+	for i := 0; i < len(sb.locs); i += stride {
 		loc := sb.locs[i]
 		for _, lb := range sb.libs {
 			if lb.kind != "relfs" || lb.relRoot {
@@ -468,8 +541,9 @@ func c20DriverStrace(d *fw.D) {
 	pending := map[string]string{}
 	var cur *model
 	curSeq := 0
-	reported := 0
+	reported, reportedNear := 0, 0
 	handle := func(path string, ret int) {
+		path = c20StraceUnquote(path)
 		if sm := c20SentRe.FindStringSubmatch(path); sm != nil {
 			base := path[:len(path)-len(sm[0])]
 			n, _ := strconv.Atoi(sm[2])
@@ -485,6 +559,7 @@ func c20DriverStrace(d *fw.D) {
 			return
 		}
 		d.Count("strace_opens_in_brackets", 1)
+		nearOpened := ""
 		l := cur.l
 		res := l.Tree.Resolve(l.Cwd, path, false)
 		ld := cur.loads[curSeq]
@@ -492,6 +567,11 @@ func c20DriverStrace(d *fw.D) {
 		switch {
 		case res.Err == fsmodel.OK && res.Node.Kind == fsmodel.File:
 			outside = !res.Node.Under(l.Root)
+			if outside && l.Near {
+				if cls, pos := c20NearOutside(l.Root, res.Node); cls != "" {
+					nearOpened = ":near-equal-name-outside:" + cls + ":" + pos
+				}
+			}
 			if !outside {
 				d.Count("strace_inside_opens", 1)
 				d.CoverKey("strace|" + ld.Lib + "|" + ld.Ctx + "|opened-inside")
@@ -501,11 +581,17 @@ func c20DriverStrace(d *fw.D) {
 		default:
 			d.Count("strace_other_opens", 1)
 		}
+		if l.Near {
+			d.Count("strace_opens_in_brackets_near_layouts", 1)
+		}
 		if outside {
-			d.Count("violation:relfs:opened-outside-file", 1)
-			if reported < 5 {
+			d.Count("violation:relfs:opened-outside-file"+nearOpened, 1)
+			if reported < 5 || (nearOpened != "" && reportedNear < 5) {
 				reported++
-				c20DriverViolation(d)("relfs:opened-outside-file", fmt.Sprintf("%s opened %s (outside root %s) while loading location %q in context %s (refused=%v)", ld.Lib, path, l.Root.Path(), ld.Loc, ld.Ctx, ld.Refused),
+				if nearOpened != "" {
+					reportedNear++
+				}
+				c20DriverViolation(d)("relfs:opened-outside-file"+nearOpened, fmt.Sprintf("%s opened %s (outside root %s) while loading location %q in context %s (refused=%v)", ld.Lib, path, l.Root.Path(), ld.Loc, ld.Ctx, ld.Refused),
 					fmt.Sprintf("layout %s\nstrace: successful open of %q between the sentinels of load #%d\n", l.Name, path, curSeq))
 			}
 		}
